@@ -663,7 +663,7 @@ pub fn gen_bound(a: &Args, out: &mut Out, run0: u64, reps: u64) -> u64 {
     let mut run = run0;
     let edge: [u16; 8] = [0x7FFF, 0x8000, 0x0000, 0xFFFF, 0x0001, 0x7FFE, 0x8001, 0xFFFE];
     for _ in 0..reps {
-        for case in 0..12u32 {
+        for case in 0..13u32 {
             for sub in 0..8u32 {
                 let sup = case != 4 || sub % 2 == 0;
                 let flags = SimFlags {
@@ -791,6 +791,15 @@ pub fn gen_bound(a: &Args, out: &mut Out, run0: u64, reps: u64) -> u64 {
                         pokes.push((pc + 2, word(0x1021, 0xFFFF)));
                         pokes.push((pc + 3, word(0xC1C0, 0xFFFF)));       // RET
                         for (i, a) in [0xFFFBu16, 0xFFFC, 0xFFFD, 0xFFFE, 0xFFFF, 0, 1, 2, 3, 4, 5, 6].iter().enumerate() { pokes.push((*a, word(0x1100 + i as u16, 0xFFFF))); }
+                    }
+                    12 => { // JSRR and JMP through every base register (R7 included: the target is read before the link)
+                        let target: u16 = 0x3400 + rng.random_range(0..0x40u16);
+                        for r in 0..8u8 { m.set_reg(out, r, word(0x3500 + r as u16, 0xFFFF)); }
+                        m.set_reg(out, sub as u8, word(target, 0xFFFF));
+                        pokes.push((pc, word(0x4000 | ((sub as u16) << 6), 0xFFFF)));          // JSRR Rsub
+                        pokes.push((target, word(0x1021, 0xFFFF)));
+                        pokes.push((target + 1, word(0xC000 | ((sub as u16) << 6), 0xFFFF)));   // JMP Rsub
+                        pokes.push((pc + 1, word(0x1021, 0xFFFF)));
                     }
                     _ => { // JSR / JSRR / TRAP / BR placed at the last address, RET to x0000
                         pcs = 0xFFFF;
